@@ -1,6 +1,7 @@
 HARNESSES = {
     'RegisterStep': dict(split={'call': 5}),
     'StartPathGradient': dict(quick=dict(params={'stops': 2}), thorough=dict(params={'stops': 4})),
+    'Repaint': dict(split={'write': 2}, job_timeout_s=300, quick=dict(params={'stops': 2}), thorough=dict(params={'stops': 3})),
     'DisabledPath': dict(split={'call': 19}),
 }
 MERGE = ['vph/ref.premul']
@@ -8,6 +9,7 @@ MERGE = ['vph/ref.premul']
 BOUNDS = {
     'state': 'arbitrary: 64 symbolic colour registers, 64 symbolic float32 number registers, symbolic palette, selectors as arbitrary bytes (values >= 64 included), symbolic LOD',
     'StartPathGradient': 'gradient-encoding register values with at most `stops` stops (quick 2, thorough 4), every CBASE/NBASE/shape/spread',
+    'Repaint': 'relational two-path history from an arbitrary state: gradient path, one SetNReg (arbitrary value) or SetCReg (a fixed opaque colour) with arbitrary selector-relative target, second path; compared with a Renderer holding the same registers without the first path; gradients with 2..stops stops',
     'StartPathFlat': 'raster heights 1..256',
 }
 OUTSIDE = 'gradients with more stops than the bound (same loop body); gradients with 0 or 1 stops (the property is silent); the pixel-to-gradient matrix is C15; colour resolution is C09'
